@@ -5,7 +5,9 @@ LEVEL = "proof"
 RULE = ("per pending server login state (real record, fake record, wrong-password client, second session): every single-bit "
         "flip and (thorough: all 255, quick: 3) single-byte substitutions per offset of the genuine finalization, the "
         "finalizations of other sessions, all-zero, all-0xff, wrong lengths, structured multi-byte alterations (same xor mask / "
-        "+d,-d at two positions, byte swaps, rotations, reversal, complement, randomised head/tail) and 1500+ random strings; distinct = distinct (suite, state, message)")
+        "+d,-d at two positions, byte swaps, rotations, reversal, complement, randomised head/tail), 1500+ random strings, and MACs "
+        "computable from public data (constant keys over the transcript hash / constants); pending states also wait in a serde "
+        "session store; distinct = distinct (suite, state, message)")
 EXHAUSTIVE = {"quick": False, "thorough": True}
 ASSUMPTIONS = ["'others rejected' holds up to explicit HMAC collision events (Bad), DESIGN.md 2.2"]
 
@@ -28,6 +30,11 @@ def fin_tamper(ctx, thorough):
     login(ctx, w, b"pw-WRONG", b"alice", b"ctx", b"ctx", None, None, None, None, "~", f.setup, f.file)
     st_wrong = w.server_login
     ctx.counting = True
+    # pending sessions wait in a session store between start and finish (native bytes already; here also serde)
+    store = ["bincode", "json"][rnd.randrange(2)]
+    st_b = persist(ctx, "ServerLogin", st_b, store)
+    st_fake = persist(ctx, "ServerLogin", st_fake, "json" if store == "bincode" else "bincode")
+    st_wrong = persist(ctx, "ServerLogin", st_wrong, store)
 
     def reject(st, m, what, exact_len=True):
         r = ctx.call("srv_login_finish", st, m)
@@ -50,6 +57,18 @@ def fin_tamper(ctx, thorough):
     for label, m in structured_alterations(rnd, ke3_a, 0, L.Nh, n_pairs=(60 if not thorough else 400), n_random=(1500 if not thorough else 6000)):
         reject(st_a, m, label)
     consts = [bytes(L.Nh), b"\xff" * L.Nh, ctx.tape(L.Nh), ctx.tape(L.Nh)]
+    # finalizations computable from public data: MACs under constant keys over constants and over the transcript hash
+    # the pending state holds (the transcript is public); a state that lost or blanked its MAC key would accept one of them
+    import hmac as _hmac, hashlib as _hl
+    hname = {32: "sha256", 48: "sha384", 64: "sha512"}[L.Nh]
+    def public_macs(st):
+        th = st[L.Nh:2 * L.Nh]
+        out = []
+        for key in (bytes(L.Nh), b"\xff" * L.Nh, th, b""):
+            for msg in (th, bytes(L.Nh), b"", st[:L.Nh], st[2 * L.Nh:]):
+                out.append(_hmac.new(key, msg, hname).digest())
+        out.append(_hl.new(hname, th).digest())
+        return out
     for st, nm, others in ((st_a, "session A", [ke3_b]), (st_b, "session B", [ke3_a]),
                            (st_fake, "fake-record session", [ke3_a, ke3_b]), (st_wrong, "wrong-password session", [ke3_a, ke3_b])):
         if st is None:
@@ -59,6 +78,8 @@ def fin_tamper(ctx, thorough):
             reject(st, m, nm + " given another session's finalization")
         for m in consts:
             reject(st, m, nm + " given a constant/random string")
+        for m in public_macs(st):
+            reject(st, m, nm + " given a MAC computable from public data")
         for m in (b"", ke3_a[:-1], ke3_a + b"\x00", ke3_a + ke3_a, ke3_a[:L.Nh // 2]):
             reject(st, m, nm + " given a wrong-length string", exact_len=False)
 
